@@ -630,7 +630,7 @@ class ParseNum(Family):
 PROP = Property(
     id="C19",
     title="Exported data files load back to the same table or image",
-    theorems=[],
+    theorems=["C19.export_import_channel", "C19.channels_honour_contract", "C19.export_import_table", "C19.export_import_fitsImage_partial", "C19.subset_rows_exact", "C19.export_order", "C19.export_order_filter_is_a_set", "C19.image_mask_fill", "C19.autotyped_stable", "C19.autotyped_flips_iff", "C19.autotyped_numeric_text_flips", "C19.fitsImage_blank_witness", "C19.fitsImage_int64_witness", "C19.autotyped_flip_witness", "C19.ascii_empty_text_witness", "C19.hdf5_zero_fill_ambiguous"],
     families=[Registry(), ParseNum(), Tab(), Img(), Sess()],
     trusted_base=["astropy (io.ascii, io.fits, io.votable, table), h5py, pandas.to_numeric, numpy: exercised, not modelled; "
                   "each format is a channel with a stated contract (Model/Export.lean: idealRead / asciiRead)"],
